@@ -50,7 +50,7 @@ impl GenCfg {
             pct_non_ascii: off(rng, 25),
             pct_big_line: off(rng, 10),
             eol_mode: rng.below(3),
-            class_pool: *rng.pick(&[2usize, 4, 8, 16, 16]),
+            class_pool: *rng.pick(&[2usize, 4, 8, 16, 16, 28]),
             method_pool: *rng.pick(&[1usize, 2, 4, 9]),
             arg_pool: *rng.pick(&[1usize, 2, 4, 9]),
             headers: rng.chance(1, 2),
@@ -65,6 +65,11 @@ impl GenCfg {
 pub const OBF_CLASSES: &[&str] = &[
     "a", "a.a", "b", "a.b", "a$a", "a.a$b", "ab", "a.a.a", "aa", "b.a", "\u{e9}", "a.\u{e9}", "zz", "a$b", "a.a$a",
     "A",
+    // a cluster of names that share a UTF-8 lead byte at the same position
+    "a.\u{c4}", "a.\u{c5}", "a.\u{c6}", "a.\u{d6}", "a.\u{d8}", "a.\u{dc}", "a.\u{df}",
+    // code points whose UTF-8 byte order and UTF-16 code-unit order disagree (supplementary plane vs
+    // U+E000..U+FFFF), and a CJK / fullwidth pair
+    "a.\u{1d49c}", "a.\u{ff41}", "a.\u{e000}", "a.\u{10000}", "a.\u{4e2d}",
 ];
 pub const ORIG_CLASSES: &[&str] = &[
     "com.example.Foo",
@@ -182,8 +187,14 @@ pub fn gen_mapping(rng: &mut Rng, cfg: &GenCfg) -> Vec<u8> {
         }
         // class line
         let obf: String = {
-            let base = OBF_CLASSES[rng.usize_below(cfg.class_pool.min(OBF_CLASSES.len()))];
-            if rng.chance(cfg.pct_long_name, 100) {
+            let base = if cfg.class_pool > 16 && rng.chance(1, 2) {
+                OBF_CLASSES[16 + rng.usize_below(OBF_CLASSES.len() - 16)]
+            } else {
+                OBF_CLASSES[rng.usize_below(cfg.class_pool.min(OBF_CLASSES.len()))]
+            };
+            if cfg.class_pool > 16 {
+                base.to_string()
+            } else if rng.chance(cfg.pct_long_name, 100) {
                 long_name(rng, base, cfg.huge_names)
             } else if cfg.class_pool >= 16 && rng.chance(1, 2) {
                 // widen the universe for big files so that not everything collides
@@ -354,7 +365,12 @@ pub fn gen_case(rng: &mut Rng, max_classes: u64, max_members: u64) -> (GenCfg, V
 /// A huge mapping: more than 65 536 classes and more than 65 536 members (16-bit limits, large
 /// offsets, string section of several MiB). Deterministic from the rng.
 pub fn gen_huge(rng: &mut Rng) -> Vec<u8> {
-    let n_classes = 66_000 + rng.range(0, 3_000);
+    let n = 66_000 + rng.range(0, 3_000);
+    gen_huge_n(rng, n)
+}
+
+/// `gen_huge` with a chosen number of classes.
+pub fn gen_huge_n(rng: &mut Rng, n_classes: u64) -> Vec<u8> {
     let mut out: Vec<u8> = Vec::with_capacity(8 << 20);
     for c in 0..n_classes {
         out.extend_from_slice(format!("com.example.pkg{}.Type{} -> p{}.c{}:\n", c % 97, c, c % 53, c).as_bytes());
@@ -366,9 +382,11 @@ pub fn gen_huge(rng: &mut Rng) -> Vec<u8> {
             let s = 1 + rng.range(0, 50);
             let e = s + rng.range(0, 5);
             match rng.below(3) {
-                0 => out.extend_from_slice(format!("    {}:{}:void method{}(int):{}:{} -> {}\n", s, e, m, 100 + s, 100 + e, *rng.pick(&["a", "b", "c"])).as_bytes()),
-                1 => out.extend_from_slice(format!("    {}:{}:int x.Inl{}.inl():{} -> a\n    {}:{}:void outer{}():{} -> a\n", s, s, c % 7, 7 + m, s, s, m, 200 + s).as_bytes()),
-                _ => out.extend_from_slice(format!("    java.lang.String plain{}(java.lang.Object,int) -> d\n", m).as_bytes()),
+                // original names are shared by runs of ~400 classes: new strings keep appearing
+                // throughout the file and every one of them is repeated many times afterwards
+                0 => out.extend_from_slice(format!("    {}:{}:void method{}_{}(int):{}:{} -> {}\n", s, e, c / 400, m, 100 + s, 100 + e, *rng.pick(&["a", "b", "c"])).as_bytes()),
+                1 => out.extend_from_slice(format!("    {}:{}:int x.Inl{}.inl{}():{} -> a\n    {}:{}:void outer{}():{} -> a\n", s, s, c % 7, c / 900, 7 + m, s, s, m, 200 + s).as_bytes()),
+                _ => out.extend_from_slice(format!("    java.lang.String plain{}_{}(java.lang.Object,com.example.arg.T{}) -> d\n", c / 650, m, c / 300).as_bytes()),
             }
         }
     }
